@@ -41,6 +41,7 @@ type CheckEv struct {
 	Err  string  `json:"errmsg"`
 	HC   bool    `json:"hc"`
 	Solo string  `json:"solo,omitempty"` // outcome of the same request as a standalone Check (C07, C32)
+	Shi  bool    `json:"shi,omitempty"`  // the serving engine has shared iterators on
 }
 
 type BatchEv struct {
@@ -144,6 +145,7 @@ func consistency(hc bool) openfgav1.ConsistencyPreference {
 func (e *Env) RunCheck(ctx context.Context, ev *CheckEv, ts *typesystem.TypeSystem, mg *modelgraph.AuthorizationModelGraph) {
 	ev.E = "Check"
 	ev.Got, ev.Errk, ev.Err = "", "", ""
+	ev.Shi = strings.Contains(e.name+":", ":shi:") // served with shared iterators on (KF-24 call site)
 	ev.Ctx = normCtx(ev.Ctx)
 	ev.Ctxt = normTuples(ev.Ctxt)
 	var allowed bool
